@@ -706,3 +706,111 @@ def flow_env(fi: FuncInfo, stop: Optional[ast.AST] = None, max_size: int = 400) 
 def inlined_text(fi: FuncInfo, node: ast.AST) -> str:
     """``unparse`` of ``node`` with the function's simple locals (as of that statement) inlined."""
     return unparse(subst_names(node, flow_env(fi, node)))
+
+
+# ----------------------------------------------------------------------------- shared mutable tables
+
+
+_MUTATING_METHODS = {"append", "appendleft", "extend", "insert", "pop", "popleft", "remove", "clear", "update", "setdefault", "popitem", "sort", "reverse", "add", "discard"}
+
+
+def _mutable_container_expr(val: ast.AST) -> bool:
+    if isinstance(val, (ast.Dict, ast.List, ast.Set, ast.DictComp, ast.ListComp, ast.SetComp)):
+        return True
+    if isinstance(val, ast.Call):
+        cn = call_name(val)
+        return bool(cn) and cn[-1] in ("dict", "list", "set", "defaultdict", "deque", "OrderedDict", "Counter", "bytearray")
+    return False
+
+
+def shared_table_mutations(repo: "Repo", owner: str, name: str, module_level: bool = False) -> List[Tuple["FuncInfo", ast.AST, str]]:
+    """Run-time mutation sites of the class-level (``owner`` = class name) or module-level (``owner`` = module name)
+    container ``name``: mutator calls, item stores / deletes, augmented assignments and rebinding, directly through
+    ``cls.name`` / ``self.name`` / ``Owner.name`` (or the bare name for a module table) or through a local alias."""
+    out: List[Tuple[FuncInfo, ast.AST, str]] = []
+
+    def is_ref(fi: "FuncInfo", node: ast.AST, aliases: set) -> bool:
+        if isinstance(node, ast.Name):
+            if node.id in aliases:
+                return True
+            return module_level and node.id == name and fi.module.name == owner
+        if isinstance(node, ast.Attribute) and node.attr == name and not module_level:
+            base = node.value
+            if isinstance(base, ast.Name):
+                if base.id == owner:
+                    return True
+                if base.id in ("cls", "self") and fi.cls is not None and any(c.name == owner for c in repo.mro(fi.cls.name)):
+                    return True
+                if fi.cls is not None and fi.params and base.id == fi.params[0] and not fi.is_static and any(c.name == owner for c in repo.mro(fi.cls.name)):
+                    return True
+            if isinstance(base, ast.Call) and unparse(base.func) in ("type", "super"):
+                return True
+        return False
+
+    for fi in repo.all_funcs():
+        aliases: set = set()
+        for _ in range(2):
+            for node in walk_no_nested(fi.node):
+                if isinstance(node, (ast.Assign, ast.AnnAssign)) and node.value is not None:
+                    vals = [node.value]
+                    if isinstance(node.value, ast.IfExp):
+                        vals = [node.value.body, node.value.orelse]
+                    if any(is_ref(fi, v, aliases) for v in vals):
+                        for t in (node.targets if isinstance(node, ast.Assign) else [node.target]):
+                            if isinstance(t, ast.Name):
+                                aliases.add(t.id)
+        for node in walk_no_nested(fi.node):
+            if isinstance(node, ast.Call) and isinstance(node.func, ast.Attribute) and node.func.attr in _MUTATING_METHODS and is_ref(fi, node.func.value, aliases):
+                out.append((fi, node, f".{node.func.attr}()"))
+            if isinstance(node, (ast.Assign, ast.AugAssign, ast.AnnAssign, ast.Delete)):
+                tgts = node.targets if isinstance(node, (ast.Assign, ast.Delete)) else [node.target]
+                for t in tgts:
+                    for leaf in (t.elts if isinstance(t, (ast.Tuple, ast.List)) else [t]):
+                        if isinstance(leaf, ast.Subscript) and is_ref(fi, leaf.value, aliases):
+                            out.append((fi, node, "item store/delete"))
+                        elif isinstance(leaf, ast.Attribute) and is_ref(fi, leaf, set()):
+                            out.append((fi, node, "rebinding"))
+                        elif isinstance(node, ast.AugAssign) and is_ref(fi, leaf, aliases):
+                            out.append((fi, node, "augmented assignment"))
+    return out
+
+
+def shared_tables(repo: "Repo", class_names: List[str], module_names: List[str]) -> List[Tuple[str, str, bool, ast.AST]]:
+    """(owner, name, module_level, value) for every class-/module-level mutable container of the given owners."""
+    out = []
+    for cn in class_names:
+        ci = repo.classes.get(cn)
+        if ci is None:
+            raise AnalysisError(f"class {cn} vanished")
+        for k, v in ci.assigns.items():
+            if _mutable_container_expr(v):
+                out.append((cn, k, False, v))
+    for mn in module_names:
+        m = repo.modules.get(mn)
+        if m is None:
+            raise AnalysisError(f"module {mn} vanished")
+        for k, v in m.assigns.items():
+            if _mutable_container_expr(v) and k != "__all__":
+                out.append((mn, k, True, v))
+    return out
+
+
+def check_no_unreviewed_shared_state(ctx, rule: str, class_names: List[str], module_names: List[str], reviewed: Dict[str, str], what: str) -> None:
+    """History independence, structural part: the classes/modules of a property own no container that is shared
+    between calls and mutated at run time, except the reviewed ones (name -> reason).  An unreviewed one leaves the
+    property undecided (its content may or may not be a function of the arguments alone)."""
+    n = 0
+    for owner, name, modlevel, val in shared_tables(ctx.repo, class_names, module_names):
+        sites = shared_table_mutations(ctx.repo, owner, name, modlevel)
+        key = f"{owner}.{name}"
+        if not sites:
+            ctx.ok(rule, key, f"{key} is never mutated at run time (constant table)")
+            n += 1
+            continue
+        if key in reviewed:
+            ctx.ok(rule, key, f"{key}: reviewed shared state – {reviewed[key]}")
+            n += 1
+            continue
+        fi, node, how = sites[0]
+        raise AnalysisError(f"{key} is shared between calls and mutated at run time ({how} in {fi.where}, line {getattr(node, 'lineno', '?')}, {len(sites)} site(s)): whether {what} stay independent of earlier calls is not decided")
+    ctx.ok(rule, ",".join(class_names + module_names), f"no unreviewed container shared between calls in {class_names + module_names} ({n} table(s) examined)")
